@@ -108,6 +108,13 @@ func famConfig(o *Out, r R, tier string) {
 		c.Origins = []string{"https://example.com", d, "https://*.example.com"}
 		emit("single-origin-defect", c)
 	}
+	for _, l := range originsPSLNested {
+		for _, tol := range []bool{false, true} {
+			c := cors.Config{Origins: append([]string{}, l...)}
+			c.DangerouslyTolerateSubdomainsOfPublicSuffixes = tol
+			emit("psl-nested", c)
+		}
+	}
 	for _, d := range originsACE {
 		c := cloneCfg(base)
 		c.Origins = []string{"https://example.com", d}
